@@ -145,12 +145,7 @@ func specBytesIndex(f *frame, callee *ssa.Function, args []Val, in string, st *S
 func specRuneCount(f *frame, callee *ssa.Function, args []Val, in string, st *State, site ssa.Instruction) (Val, bool) {
 	vc := f.vc
 	vc.useStd(callee)
-	if !vc.absFns["runeCount_"] {
-		vc.absFns["runeCount_"] = true
-		vc.lines = append(vc.lines, "(declare-fun runeCount_ ((Array Loc Int) Slice) Int)",
-			"(assert (forall ((h (Array Loc Int)) (s Slice)) (! (and (<= 0 (runeCount_ h s)) (<= (runeCount_ h s) (sl.len s))) :pattern ((runeCount_ h s)))))")
-	}
-	return Val{T: App("runeCount_", st.H["Int"], args[0].T), Typ: types.Typ[types.Int]}, true
+	return Val{T: vc.runeCountTerm(st.H["Int"], args[0].T), Typ: types.Typ[types.Int]}, true
 }
 
 func specUvarint(f *frame, callee *ssa.Function, args []Val, in string, st *State, site ssa.Instruction) (Val, bool) {
